@@ -1,1 +1,143 @@
-"""Source audits (frame / identity side conditions re-checked from /repo's text on every run)."""
+"""Source audits: side conditions of frame arguments that rustc discharges for ALL programs.
+
+C08 (immutability): in safe Rust a `Vec<usize>` field and an `Rc<Vec<Float>>` without interior
+mutability cannot be written through `&self`, and the contents of a shared `Rc` cannot be written
+at all. The obligations below re-establish, from /repo's current text, that the premises of that
+argument still hold; rustc (the type and borrow checker, run by every build of the checks) is the
+back end that discharges the frame condition itself. A failed item is a VIOLATION naming the item
+(`no-failing-input-found` unless a bounded instance also fails).
+
+Each audit function returns a list of {name, status: verified|failed|undecided, detail}.
+"""
+import os
+import re
+import sys
+
+sys.path.insert(0, os.path.join(os.path.dirname(os.path.abspath(__file__)), "lib"))
+from rustlex import lex, ExtractError  # noqa: E402
+
+
+def _read(repo, rel):
+    return open(os.path.join(repo, rel)).read()
+
+
+def _strip_comments(src):
+    """source text with comments and string literals blanked (token-accurate)."""
+    out = []
+    for t in lex(src):
+        out.append(t.text if t.kind != "str" else '""')
+    return " ".join(out)
+
+
+def _rs_files(repo):
+    res = []
+    for d, _, fs in os.walk(os.path.join(repo, "src")):
+        for f in fs:
+            if f.endswith(".rs"):
+                res.append(os.path.relpath(os.path.join(d, f), repo))
+    return sorted(res)
+
+
+def _item(name, ok, detail):
+    return {"name": name, "status": "verified" if ok else "failed", "detail": detail,
+            "reason": None if ok else detail, "wall_s": 0.0}
+
+
+def _struct_fields(src, name):
+    m = re.search(r"pub struct %s\s*\{(.*?)\n\}" % name, src, flags=re.S)
+    if not m:
+        return None
+    fields = {}
+    for line in m.group(1).splitlines():
+        line = line.split("//")[0].strip().rstrip(",")
+        if not line:
+            continue
+        mm = re.match(r"(pub(\([a-z]+\))?\s+)?(\w+)\s*:\s*(.+)$", line)
+        if mm:
+            fields[mm.group(3)] = (mm.group(4).strip(), bool(mm.group(1)))
+    return fields
+
+
+def audit_immutability(repo):
+    items = []
+    try:
+        mod = _read(repo, "src/array/mod.rs")
+        fields = _struct_fields(mod, "Array")
+        if fields is None:
+            return [{"name": "audit:Array struct found", "status": "undecided", "reason": "struct Array not found", "detail": ""}]
+        dt, dpub = fields.get("dimensions", ("?", False))
+        vt, vpub = fields.get("values", ("?", False))
+        items.append(_item("audit:C08 `dimensions` is a plain private Vec<usize> (no interior mutability)",
+                           dt == "Vec<usize>" and not dpub, "dimensions: %s pub=%s" % (dt, dpub)))
+        items.append(_item("audit:C08 `values` is a private Rc<Vec<Float>> (shared, no interior mutability)",
+                           vt == "Rc<Vec<Float>>" and not vpub, "values: %s pub=%s" % (vt, vpub)))
+        # no unsafe outside blas.rs; no escape hatches on Rc
+        bad_unsafe, bad_escape, mut_self = [], [], []
+        for rel in _rs_files(repo):
+            if rel.endswith("blas.rs"):
+                continue
+            code = _strip_comments(_read(repo, rel))
+            if re.search(r"\bunsafe\b", code):
+                bad_unsafe.append(rel)
+            for pat in (r"Rc\s*::\s*get_mut", r"Rc\s*::\s*make_mut", r"Rc\s*::\s*as_ptr", r"Rc\s*::\s*from_raw", r"Rc\s*::\s*into_raw",
+                        r"\btransmute\b", r"get_mut_unchecked", r"\bUnsafeCell\b", r"ptr\s*::\s*write", r"as_mut_ptr", r"\bstatic\s+mut\b"):
+                if re.search(pat, code):
+                    bad_escape.append("%s:%s" % (rel, pat))
+        items.append(_item("audit:C08 no `unsafe` outside the feature-gated BLAS wrapper", not bad_unsafe, "files with unsafe: %s" % bad_unsafe))
+        items.append(_item("audit:C08 no Rc::get_mut / make_mut / raw-pointer / transmute / UnsafeCell escape hatch", not bad_escape,
+                           "found: %s" % bad_escape))
+        # no `&mut self` method in impl Array assigns self.values / self.dimensions, except the private builders
+        # (with_children / with_backward_op take `mut self` by value on a fresh result)
+        code = _strip_comments(mod)
+        assigns = re.findall(r"self\s*\.\s*(values|dimensions)\s*(?:=[^=]|\.\s*(?:push|extend|clear|truncate|insert|remove|swap|iter_mut|as_mut|sort|reverse|resize|drain|pop|append)\b)", code)
+        items.append(_item("audit:C08 no method assigns or mutates self.values / self.dimensions", not assigns, "assignments: %s" % assigns))
+        for rel in ("src/array/arithmetic.rs", "src/array/linalg.rs", "src/array/image.rs", "src/array/nonlinearity.rs"):
+            c2 = _strip_comments(_read(repo, rel))
+            a2 = re.findall(r"\.\s*(values|dimensions)\s*(?:=[^=]|\.\s*(?:push|extend|clear|truncate|insert|remove|swap|iter_mut|as_mut|sort|reverse|resize|drain|pop|append)\b)", c2)
+            items.append(_item("audit:C08 %s does not assign or mutate any array's values / dimensions" % rel, not a2, "found: %s" % a2))
+        # public API exposes values/dimensions only as shared slices
+        pubs = re.findall(r"pub fn (\w+)\s*\(([^)]*)\)\s*->\s*([^\{]+)\{", mod)
+        leaks = [n for n, args, ret in pubs if re.search(r"&\s*mut\s*(\[|Vec)", ret) or re.search(r"RefMut<\s*(Vec|\[)", ret)]
+        items.append(_item("audit:C08 no public accessor returns a mutable view of values / dimensions", not leaks, "leaks: %s" % leaks))
+        # optimizer replaces parameters (`*p = Array::from(..)`) and never writes through them
+        gd = _strip_comments(_read(repo, "src/optimizer/gd.rs"))
+        repl = re.search(r"\*\s*p\s*=\s*Array\s*::\s*from", gd) is not None
+        items.append(_item("audit:C08 the optimizer installs a new array (`*p = Array::from(..)`) instead of mutating the old one", repl,
+                           "replacement assignment found: %s" % repl))
+    except (OSError, ExtractError) as e:
+        items.append({"name": "audit:C08 source readable", "status": "undecided", "reason": str(e), "detail": ""})
+    return items
+
+
+def audit_handles(repo):
+    """C12: nothing observes handle identity except the two documented Rc::try_unwrap sites; no Drop impl."""
+    items = []
+    try:
+        sites = []
+        drops = []
+        cnt = []
+        for rel in _rs_files(repo):
+            if rel.endswith("blas.rs"):
+                continue
+            src = _read(repo, rel)
+            # test modules are not part of the library's behaviour
+            code = _strip_comments(src.split("#[cfg(test)]")[0])
+            for m in re.finditer(r"Rc\s*::\s*try_unwrap", code):
+                sites.append(rel)
+            if re.search(r"impl\s+Drop\s+for", code):
+                drops.append(rel)
+            if re.search(r"Rc\s*::\s*(strong_count|weak_count|ptr_eq|is_unique)", code):
+                cnt.append(rel)
+        items.append(_item("audit:C12 Rc::try_unwrap only at the two documented sites of src/array/mod.rs (copy fallback; sole-owner conversion)",
+                           sorted(sites) == ["src/array/mod.rs", "src/array/mod.rs"], "sites: %s" % sites))
+        items.append(_item("audit:C12/C18 no Drop impl in the crate (dropping a handle only decrements counts)", not drops, "Drop impls: %s" % drops))
+        items.append(_item("audit:C12 no reference-count / pointer-identity inspection in library code", not cnt, "files: %s" % cnt))
+        mod = _read(repo, "src/array/mod.rs")
+        f = _struct_fields(mod, "Array") or {}
+        shared = all(f.get(k, ("", False))[0].startswith("Rc<") for k in ("values", "children", "consumer_count", "delta", "gradient"))
+        items.append(_item("audit:C12 every graph/gradient field of Array is an Rc (shared by clones), flags are per-handle Cells",
+                           shared and f.get("is_tracked", ("",))[0] == "Cell<bool>" and f.get("keep_gradient", ("",))[0] == "Cell<bool>",
+                           "fields: %s" % {k: v[0] for k, v in f.items()}))
+    except OSError as e:
+        items.append({"name": "audit:C12 source readable", "status": "undecided", "reason": str(e), "detail": ""})
+    return items
